@@ -14,7 +14,10 @@ Tie to the code (models: coq/theories/Components.v + Config.v, theorems: coq/pro
              sees it in its setup: reads of a pool of key paths by EVERY probe, modification attempts by the first probe
              to be set up (update / item assignment / deletion at several places) and again from outside after setup,
              with outcomes.  Components reach the context through the constructor, through add_components (nested lists),
-             or through the `components` block of the model specification (parser plugin -> props.c20.SpecProbe).  When
+             or through the `components` block of the model specification (parser plugin -> props.c20.SpecProbe; a tree or
+             a YAML file; one section, a nested list or two sections; ' or " quotes; the SAME description listed twice, one
+             name with different arguments, the rest of the forest supplied as instances: spec + constructor, spec +
+             add_components) - the parser must yield one component per description, in document order.  When
              add_components refuses a batch on an existing context, setup is called all the same and what stayed
              registered is observed (no roll-back: a prefix of the pre-order list).
   stream `cfg` : a stand-alone LayeredConfigTree driven by an operation sequence (the library model Config.v).
@@ -26,7 +29,9 @@ the frozen configuration goes through - open finding F-AA (layered_config_tree d
 modelled faithfully (Config.delete_key, C20_frozen_deletion_refuted), reported as KNOWN-FINDING when it is the only thing
 wrong with a case (finding_of_ctx).
 """
+import copy
 import json
+import os
 import random
 
 import boot
@@ -54,7 +59,8 @@ CLAIM = {
 }
 RULE = ("ctx: forests of 0-14 probe components (depth <= 4, fan-out <= 4, nested lists / tuples at top level and inside "
         "sub_components, duplicates planted at any depth, manager names) supplied through the constructor, "
-        "add_components or the model specification's components block, x 1-3 modification attempts during setup and 0-3 "
+        "add_components, the model specification's components block (tree / YAML file, 3 layouts, quote variants, 40% with a "
+        "description repeated or a name reused) or block + instances, x 1-3 modification attempts during setup and 0-3 "
         "after it (a quarter of the cases with deletions: open finding F-AA), x defaults / model-specification values / keyword arguments drawn from a pool of 9 key paths "
         "(shared prefixes, leaf-vs-interior conflicts, population.population_size owned by a manager). cfg: 1-5 layers, "
         "3-14 operations (update at a path / at the root with nested dicts, item assignment, freeze of a sub-tree or "
@@ -199,10 +205,40 @@ def make_probe_class():
 _SPEC = {}       # what SpecProbe('<i>') builds: filled by run_ctx before a context with a `components` block is created
 
 
-def SpecProbe(index):
-    """Named in a model specification's `components` block as props.c20.SpecProbe('<i>'): the parser plugin imports this
-    module by path and calls it with the string argument; it returns the i-th top-level probe of the current case."""
-    return build_objects([_SPEC["items"][int(index)]], _SPEC["Probe"], _SPEC["shared"])[0]
+def SpecProbe(name, variant="v0"):
+    """Named in a model specification's `components` block as props.c20.SpecProbe('<name>'[, '<variant>']): the parser plugin
+    imports this module by path and calls it with the string arguments; it returns a NEW probe object for the top-level
+    item of the current case registered under that description (the same description twice = two components of one name)."""
+    return build_objects([_SPEC["by_desc"][(name, variant)]], _SPEC["Probe"], _SPEC["shared"])[0]
+
+
+def spec_descriptions(items, quotes):
+    """one description string per item, in order; identical items get the identical description (up to the quote
+    character), items with one name but different content get different arguments"""
+    by_desc, descs, seen = {}, [], []
+    for i, it in enumerate(items):
+        js = json.dumps(it, sort_keys=True)
+        hit = [(n, v) for (n, v, j) in seen if j == js]
+        if hit:
+            name, variant = hit[0]
+        else:
+            name = it["c"]
+            variant = "v%d" % sum(1 for (n, v, j) in seen if n == name)
+            seen.append((name, variant, js))
+            by_desc[(name, variant)] = it
+        q = "'" if not quotes[i % len(quotes)] else '"'
+        descs.append(f"SpecProbe({q}{name}{q})" if variant == "v0" else f"SpecProbe({q}{name}{q}, {q}{variant}{q})")
+    return descs, by_desc
+
+
+def arrange_descriptions(descs, nest):
+    """the `components` block: one section, a nested list inside the section, or two sections naming the same module"""
+    h = max(1, len(descs) // 2)
+    if nest == "nested_list" and len(descs) > h:
+        return {"props": {"c20": descs[:h] + [descs[h:]]}}
+    if nest == "two_sections" and len(descs) > h:
+        return {"props": {"c20": descs[:h]}, "props.c20": descs[h:]}
+    return {"props": {"c20": list(descs)}}
 
 
 def read_path(cfg, path):
@@ -490,10 +526,35 @@ def gen_attempts(rng, p_del):
 
 def gen_ctx(rng):
     p_del = rng.choice([0.0, 0.0, 0.0, 0.4])
-    return {"forest": gen_forest(rng), "spec": gen_cfgdict(rng, rng.choice([0.0, 0.15, 0.3])),
-            "over": gen_cfgdict(rng, rng.choice([0.0, 0.15, 0.3])), "via": rng.choice(["ctor", "add", "add", "spec"]),
+    forest = gen_forest(rng)
+    via = rng.choice(["ctor", "add", "add", "spec", "spec", "spec+ctor", "spec+add"])
+    case = {"forest": forest, "spec": gen_cfgdict(rng, rng.choice([0.0, 0.15, 0.3])),
+            "over": gen_cfgdict(rng, rng.choice([0.0, 0.15, 0.3])), "via": via,
             "spec_as": rng.choice(["tree", "none_if_empty"]), "attempts": gen_attempts(rng, p_del),
             "outside": gen_attempts(rng, p_del) if rng.random() < 0.5 else []}
+    if via.startswith("spec"):
+        comps = [i for i, it in enumerate(forest) if "c" in it]
+        lead = 0
+        while lead < len(forest) and "c" in forest[lead]:
+            lead += 1
+        case["spec_n"] = rng.randint(1, max(1, lead))
+        case["spec_style"] = {"quotes": [rng.randint(0, 1) for _ in range(rng.randint(1, 4))],
+                              "nest": rng.choice(["flat", "nested_list", "two_sections"]), "yaml": rng.random() < 0.3}
+        if comps and rng.random() < 0.4:
+            # the SAME component described twice (identical description, perhaps other quotes / another section / the second
+            # one supplied as an instance), or one name with different content (different arguments)
+            src = copy.deepcopy(forest[rng.choice(comps)])
+            if rng.random() < 0.3:
+                src["d"] = {}
+                src["s"] = []
+            if via == "spec" or rng.random() < 0.5:
+                pos = rng.randint(0, lead) if lead else 0
+                forest.insert(pos, src)
+                if via != "spec":
+                    case["spec_n"] = min(case["spec_n"] + (1 if pos < case["spec_n"] else 0), lead + 1)
+            else:
+                forest.append(src)                 # spec + instance of the same name
+    return case
 
 
 def flat_names(items):
@@ -576,24 +637,46 @@ def run_ctx(case):
     boot.reset_contexts()
     Probe = make_probe_class()
     shared = {"log": [], "events": [], "paths": PATHS, "attempts": case["attempts"], "attempted": False, "cfg": None}
-    top_has_group = any("g" in it for it in case["forest"])
     via = case.get("via") or ("ctor" if case.get("via_constructor") else "add")
-    if top_has_group or (via == "spec" and not case["forest"]):
-        via = "add"            # a nested list at top level can only be handed to add_components
-    objs = build_objects(case["forest"], Probe, shared) if via != "spec" else []
+    forest = case["forest"]
+    n_spec = 0
+    if via.startswith("spec"):
+        want = len(forest) if via == "spec" else max(1, min(case.get("spec_n", 1), len(forest)))
+        while n_spec < want and n_spec < len(forest) and "c" in forest[n_spec]:
+            n_spec += 1                               # only components (no nested list) can be named in the block
+        if via == "spec" and n_spec < len(forest):
+            via = "spec+add"
+        if n_spec == 0:
+            via = "add"
+    rest = forest[n_spec:]
+    if any("g" in it for it in rest) and via in ("ctor", "spec+ctor"):
+        via = "add" if via == "ctor" else "spec+add"   # a nested list at top level can only be handed to add_components
+    objs = build_objects(rest, Probe, shared)
     spec = case["spec"]
     spec_tree = {"configuration": spec}
-    if via == "spec":          # the components block of the model specification -> ComponentConfigurationParser
-        _SPEC.update(items=case["forest"], Probe=Probe, shared=shared)
-        spec_tree["components"] = {"props": {"c20": [f"SpecProbe('{i}')" for i in range(len(case["forest"]))]}}
-    ms = None if (case["spec_as"] == "none_if_empty" and not spec and via != "spec") else LayeredConfigTree(spec_tree)
+    yaml_path = None
+    if n_spec:                 # the components block of the model specification -> ComponentConfigurationParser
+        style = case.get("spec_style") or {}
+        descs, by_desc = spec_descriptions(forest[:n_spec], style.get("quotes") or [0])
+        _SPEC.update(by_desc=by_desc, Probe=Probe, shared=shared)
+        spec_tree = {"components": arrange_descriptions(descs, style.get("nest", "flat")), "configuration": spec}
+        if style.get("yaml"):
+            import tempfile
+            import yaml
+            fd, yaml_path = tempfile.mkstemp(prefix="verif_c20_", suffix=".yaml")
+            with os.fdopen(fd, "w") as fh:
+                yaml.safe_dump(spec_tree, fh, sort_keys=False)
+    if yaml_path:
+        ms = yaml_path
+    else:
+        ms = None if (case["spec_as"] == "none_if_empty" and not spec and not n_spec) else LayeredConfigTree(spec_tree)
     built, setup_ok, build_err, setup_err = True, None, None, None
     sim, add_refused = None, False
     with Recording() as rec:
         try:
-            sim = SimulationContext(model_specification=ms, components=objs if via == "ctor" else [], configuration=case["over"],
-                                    logging_verbosity=0)
-            if via == "add":
+            sim = SimulationContext(model_specification=ms, components=objs if via in ("ctor", "spec+ctor") else [],
+                                    configuration=case["over"], logging_verbosity=0)
+            if via in ("add", "spec+add"):
                 try:
                     sim.add_components(objs)
                 except Exception as e:  # noqa: BLE001
@@ -601,6 +684,11 @@ def run_ctx(case):
         except Exception as e:  # noqa: BLE001
             built, build_err = False, e
     boot.quiet_logging()
+    if yaml_path:
+        try:
+            os.remove(yaml_path)
+        except OSError:
+            pass
     mgr_objs = list(rec.managers)
     partial = None
     if built or add_refused:
@@ -730,6 +818,8 @@ def run_ctx(case):
             ("setup_ok" if setup_ok else "setup_rejected:" + type(setup_err).__name__) if built else
             ("no_setup" if partial is None else ("partial_setup_ok" if partial[0] else "partial_setup_rejected")),
             f"n{min(len(names), 14) // 3 * 3}", "dup" if dup else "nodup", "clash" if clash else "noclash", "via_" + via,
+            ("spec_yaml" if yaml_path else "spec_tree") if n_spec else "no_spec_block",
+            "spec_dup" if n_spec and len({it["c"] for it in forest[:n_spec]}) < n_spec else "spec_nodup",
             "deletions" if ndel else "no_deletions") + ((("preorder_exact" if exact else "other_valid_order"),) if built and setup_ok else ())
     nontrivial = bool(names) or bool(spec) or bool(case["over"])
     return Result(ok=ok, msg=msg, coq=coq, key=json.dumps(case, sort_keys=True) if nontrivial else None,
